@@ -4,6 +4,7 @@ import (
 	"fmt"
 	"go/token"
 	"go/types"
+	"os"
 	"sort"
 	"strings"
 
@@ -309,6 +310,12 @@ func (c *ctx) mpt(s mptSpec) *PathResult {
 	c.r.Analysed["path_rules"]++
 	c.r.Analysed["path_blocks_visited"] += res.Blocks
 	c.r.Analysed["path_target_states"] += res.States
+	if res.MaxStates > c.r.Analysed["path_max_states_per_block"] {
+		c.r.Analysed["path_max_states_per_block"] = res.MaxStates
+	}
+	if os.Getenv("CV_PATHSTATS") != "" {
+		fmt.Fprintf(os.Stderr, "pathstats %s %s maxstates=%d blocks=%d\n", s.rule, fnName(s.fn), res.MaxStates, res.Blocks)
+	}
 	where := fnName(s.fn)
 	for _, u := range res.Undecided {
 		c.r.Unk(s.rule+"/"+where+"/analysis", c.p.Pos(s.fn.Pos()), u)
@@ -531,6 +538,21 @@ func cmpAtoms(p *Prog, specs ...cmpSpec) func(v ssa.Value) (string, bool) {
 		}
 		var px, py string
 		got := false
+		// "x == 0" has ordering spellings for non-negative x: x < 1, x <= 0, !(x > 0), !(x >= 1) and the mirrored forms
+		if zx, isZero, ok := zeroTest(b); ok {
+			pz := p.path(zx)
+			for _, s := range specs {
+				if s.op != token.EQL && s.op != token.NEQ {
+					continue
+				}
+				if (s.x(pz) && s.y("0")) || (s.y(pz) && s.x("0")) {
+					if s.op == token.EQL {
+						return s.name, !isZero
+					}
+					return s.name, isZero
+				}
+			}
+		}
 		for _, s := range specs {
 			switch s.op {
 			case token.EQL:
@@ -662,4 +684,44 @@ func firstAtom(fs ...func(v ssa.Value) (string, bool)) func(v ssa.Value) (string
 		}
 		return "", false
 	}
+}
+
+// zeroTest recognises an ordering comparison of a non-negative value (unsigned integer, len, cap) with the constants 0 or
+// 1 that is equivalent to a test for zero: it returns the value and whether the comparison is TRUE exactly when it is zero.
+func zeroTest(b *ssa.BinOp) (ssa.Value, bool, bool) {
+	if !isOrdering(b.Op) {
+		return nil, false, false
+	}
+	constOf := func(v ssa.Value) (string, bool) {
+		if c, ok := v.(*ssa.Const); ok && c.Value != nil {
+			return c.Value.ExactString(), true
+		}
+		return "", false
+	}
+	nonNeg := func(v ssa.Value) bool {
+		if call, ok := v.(*ssa.Call); ok {
+			if bi, ok := call.Common().Value.(*ssa.Builtin); ok && (bi.Name() == "len" || bi.Name() == "cap") {
+				return true
+			}
+		}
+		if bt, ok := v.Type().Underlying().(*types.Basic); ok && bt.Info()&types.IsUnsigned != 0 {
+			return true
+		}
+		return false
+	}
+	op, x, y := b.Op, b.X, b.Y
+	if _, isC := constOf(x); isC {
+		op, x, y = swapOrd(op), y, x // constant on the right
+	}
+	k, isC := constOf(y)
+	if !isC || !nonNeg(x) {
+		return nil, false, false
+	}
+	switch {
+	case op == token.LSS && k == "1", op == token.LEQ && k == "0":
+		return x, true, true // x < 1, x <= 0  <=> x == 0
+	case op == token.GTR && k == "0", op == token.GEQ && k == "1":
+		return x, false, true // x > 0, x >= 1 <=> x != 0
+	}
+	return nil, false, false
 }
